@@ -14,7 +14,8 @@ EXPLANATION = (
     "stored and the state lock stays held; (R3) the only submit site is the NotStarted arm, which fills from the "
     "same data.tail places and stores a fresh O::empty() container (LIFE-6), so nothing of the earlier attempt is "
     "mixed in; (R4) a multishot stream restarts only behind the `!has_next()` assertion. Idempotence of each "
-    "fill_submission on re-run and kernel behaviour are not decided."
+    "fill_submission on re-run and kernel behaviour are not decided. (R5) LIFE-4: the status only becomes Done on a "
+    "completion without F_MORE, so a restart never overlaps a still-pending completion of the earlier attempt."
 )
 NOT_DECIDED = "value-level idempotence of each fill_submission when run twice on the same resources; kernel behaviour"
 ASSUMPTIONS = ["errno numbers from /usr/include/asm-generic/errno*.h match the target"]
@@ -184,3 +185,4 @@ def check(ctx):
     ctx.run('C09.R2', 'restart path: no return, no resource use, no tail writes, NotStarted stored, lock held; multishot only when !has_next()', r2_pure_restart)
     ctx.run('C09.R3', 'single submit site in the NotStarted arm over the same data.tail places', r3_same_submission)
     ctx.run('C09.R4', 'LIFE-6: resubmission stores a fresh O::empty() container under the lock', life.life6)
+    ctx.run('C09.R5', 'LIFE-4: the restart arm (Done) is only reachable after the final completion of the previous attempt, so no late completion of attempt k can be taken for attempt k+1', life.life4)
